@@ -60,9 +60,14 @@ SnapReach == IF snap = <<>> THEN {} ELSE ReachFrom(snap[1].edges, ToSet(snap[1].
 
 OwnerOf(id) == IF id \in DOMAIN owner THEN owner[id] ELSE 0
 
+(* every box the record mentions: the owner table is laid out once (a table that grows by one key per   *)
+(* allocation made a 25 000-allocation loop quadratic in interpreted steps)                            *)
+IdsOf(evs) == {evs[k].id : k \in {j \in 1..Len(evs) : "id" \in DOMAIN evs[j]}}
+
 Init ==
   /\ pid \in 1..Len(Recs)
-  /\ i = 1 /\ live = {} /\ owner = <<>> /\ snap = <<>> /\ begin = {} /\ dropped = {} /\ viol = {}
+  /\ i = 1 /\ live = {} /\ owner = [x \in IdsOf(Recs[pid].heap) |-> 0]
+  /\ snap = <<>> /\ begin = {} /\ dropped = {} /\ viol = {}
 
 SetOwner(id, g) == IF id \in DOMAIN owner THEN [owner EXCEPT ![id] = g]
                    ELSE [x \in (DOMAIN owner) \cup {id} |-> IF x = id THEN g ELSE owner[x]]
